@@ -30,7 +30,7 @@ def run(ctx):
     navis.set_loggers('ERROR')
     navis.set_pbars(hide=True)
     rng = ctx.rng
-    N = ctx.n(220, 3000)
+    N = ctx.n(380, 3000)
     nmax = ctx.n(30, 80)
     jobs = []
     for ci in range(N):
@@ -54,7 +54,12 @@ def run(ctx):
             desc = dict(forest=f, lattice=lattice, op=kind, backend=be)
             size = float(rng.integers(0, 12)) + 0.5 if lattice else float(rng.uniform(0.1, 40))
             if kind == 'twigs':
-                rec = [False, True, 1, 2][int(rng.integers(4))]
+                rec = [False, True, 1, 2, 1, 2, 3][int(rng.integers(7))]
+                if rec is not False and rec is not True and len(w) > 0 and rng.random() < 0.7:
+                    # integer recursion depths matter when pruning uncovers new short twigs: thresholds worth a few edges
+                    size = float(np.percentile([float(v) for v in w.values()], 75)) * float(rng.choice([1.5, 2.5, 4.0]))
+                    if lattice:
+                        size = float(int(size)) + 0.5
                 use_mask = rng.random() < 0.35
                 mask = None
                 if use_mask:
